@@ -262,8 +262,8 @@ def parse_model(case, mo):
     if mo is None:
         return py_fallback(case)
     if case.get('path') == 'cache':
-        decision, usable, m, spec, coded = mo
-        return dict(model=m[0], selected=m[1], spec=spec, coded=coded, decision=bool(decision),
+        (decision, spec_decision), usable, m, spec, coded = mo
+        return dict(model=m[0], selected=m[1], spec=spec, coded=coded, decision=bool(decision), spec_decision=bool(spec_decision),
                     usable=[tuple(p) for p in usable], f14s=None, f14d=None)
     m, spec, coded, f14s, f14d = mo
     return dict(model=m, selected=None, spec=spec, coded=coded, decision=True, usable=None, f14s=bool(f14s), f14d=bool(f14d))
@@ -280,13 +280,16 @@ def compare(ctx, case, mo, ob=None, prefix=''):
         base = 'greedy=unwrapped_ndarray;' + base
     M = parse_model(case, mo)
     model, spec, coded = M['model'], M['spec'], M['coded']
-    # ---- the categorical / numerical decision of _extract
-    if path == 'cache' and M['decision'] != (ob[0] != 'num') and ob[0] != 'err':
-        ctx.disagree(base + ';symptom=categorical_decision', case, ob[0], M['decision'],
+    # ---- the categorical / numerical decision of _extract: against the SPEC (explicit property, else non-float) and,
+    #      as a tie, against the decision of the model written over the regenerated default
+    want = M.get('spec_decision', M['decision'])
+    if path == 'cache' and ob[0] != 'err' and (want != (ob[0] != 'num') or M['decision'] != (ob[0] != 'num')):
+        ctx.disagree(base + ';symptom=categorical_decision', case, ob[0], [M['decision'], want],
                      'SensorCache.get treats the sensor as %s, the rule (explicit property, else non-float) says %s'
-                     % ('numerical' if ob[0] == 'num' else 'categorical', 'categorical' if M['decision'] else 'numerical'))
+                     % ('numerical' if ob[0] == 'num' else 'categorical', 'categorical' if want else 'numerical'),
+                     kind='property' if want != (ob[0] != 'num') else 'tie')
         return ob
-    if ob[0] == 'num' or not M['decision']:
+    if ob[0] == 'num' or not want:
         return ob
     in_domain = spec[0] == 1
     # ---- tie: implementation vs extracted model
@@ -383,7 +386,7 @@ def py_fallback(case):
     categ = case.get('categ')
     decision = bool(categ) if categ is not None else not case.get('is_float', case['rep'] == 'float')
     return dict(model=None, selected=None, spec=py_spec(case, case['init']), coded=py_spec(case, coded),
-                decision=decision, usable=None, f14s=None, f14d=None)
+                decision=decision, spec_decision=decision, usable=None, f14s=None, f14d=None)
 
 
 # ---------------------------------------------------------------- generators
@@ -509,6 +512,7 @@ def run_cases(ctx, cases, tag):
                 ctx.count('cache:keep_mask')
             ctx.count('cache:categorical=%s' % case.get('categ'))
             if mo is not None and len(mo[1]) == 1 and (not ts or tuple(mo[1][0]) not in set(zip([t + (case.get('off') or 0) for t in ts], case['vals']))):
+                # (mo[1] = usable samples)
                 ctx.count('cache:dummy_sample')
 
 
